@@ -294,10 +294,104 @@ def cli_case(case, env):
                 "input": case["input"][:100]})
 
 
+def check_ml_text(case, env, data, path):
+    """-U --vimgrep: one record per match, at the line and column where the
+    match starts, carrying that line's text; -U -n -b: every printed line is
+    the file's line at that number and offset."""
+    rep = env.rep
+    lines = split_lines(data)
+    by_n = {n: (n, s, e) for n, s, e in lines}
+    starts = [s for _, s, _ in lines]
+    import bisect
+    fargs = ["-a", "--no-config", "--color", "never"] + case["args"]
+    pats = ["-e", case["pattern"]]
+    crlf = "--crlf" in case["args"]
+    # expected (line, column) per match; an empty match right after the final
+    # terminator is on no line
+    want = []
+    for s, e in case["match_spans"]:
+        if s >= len(data):
+            if data.endswith(b"\n") or not data:
+                continue
+            s = len(data)
+        i = bisect.bisect_right(starts, s) - 1
+        n, ls, le = lines[i]
+        want.append((n, s - ls + 1))
+    for mname, margs in (("multiline-vimgrep", ["--vimgrep", "-b"]), ("multiline-lines", ["-n", "-b", "--no-heading"])):
+        rep["evaluations"] += 1
+        r = common.run_rg(fargs + margs + pats + [path], env.tmp, env.home)
+        if r is None:
+            env.inconclusive("watchdog")
+            continue
+        env.count("rg_runs")
+        if r[0] == 2:
+            continue
+        got = []
+        bname = path.encode()
+        ok = True
+        for rec in r[1].split(b"\n"):
+            if rec in (b"", b"--", b"--\r"):
+                continue
+            if mname == "multiline-vimgrep":
+                if not rec.startswith(bname + b":"):
+                    _bad(env, mname, "record without path", {"args": case["args"], "patterns": [case["pattern"]], "input": case["input"]}, margs, rec)
+                    ok = False
+                    break
+                rec = rec[len(bname) + 1:]
+                m = re.match(rb"^(\d+):(\d+):(\d+):", rec)
+            else:
+                m = re.match(rb"^(\d+)[:-](\d+)[:-]", rec)
+            if not m:
+                _bad(env, mname, "unparsable record", {"args": case["args"], "patterns": [case["pattern"]], "input": case["input"]}, margs, rec)
+                ok = False
+                break
+            n = int(m.group(1))
+            text = rec[m.end():]
+            if n not in by_n:
+                _bad(env, mname, "line number %d does not exist" % n, {"args": case["args"], "patterns": [case["pattern"]], "input": case["input"]}, margs, rec)
+                ok = False
+                break
+            _, ls, le = by_n[n]
+            lb = data[ls:le]
+            want_text = lb[:-1] if lb.endswith(b"\n") else lb + (b"\r" if crlf else b"")
+            c = {"args": case["args"], "patterns": [case["pattern"]], "input": case["input"]}
+            if crlf and text == want_text + b"\r" and not lb.endswith(b"\r\n"):
+                # a line ended by a lone LF is re-terminated with CRLF by the
+                # per-match printer: same content
+                text = want_text
+            if text != want_text:
+                _bad(env, mname, "printed text is not line %d of the file" % n, c, margs, rec)
+                ok = False
+                break
+            if mname == "multiline-vimgrep":
+                col, off = int(m.group(2)), int(m.group(3))
+                # (in multi-line mode rg prints the line's offset, in line
+                # mode the match's; both identify the line and the match)
+                if off != ls + col - 1 and off != ls:
+                    _bad(env, mname, "offset %d is neither line start %d nor line start + column %d - 1" % (off, ls, col), c, margs, rec)
+                    ok = False
+                    break
+                got.append((n, col))
+            else:
+                off = int(m.group(2))
+                if off != ls:
+                    _bad(env, mname, "offset %d, line %d starts at %d" % (off, n, ls), c, margs, rec)
+                    ok = False
+                    break
+            env.count("records_checked")
+        all_nonempty = all(e > s for s, e in case["match_spans"])
+        if ok and mname == "multiline-vimgrep" and all_nonempty and got != want:
+            _bad(env, mname, "records at (line, column) %s, whole-input matches start at %s" % (got[:6], want[:6]),
+                 {"args": case["args"], "patterns": [case["pattern"]], "input": case["input"]}, margs, b"", "match-positions")
+        if got:
+            env.nontrivial((case["pattern"], tuple(case["args"]), case["input"], mname))
+
+
 def ml_case(case, env):
     data = unesc(case["input"])
     path = "f.txt"
     env.write(path, data)
+    check_ml_text(case, env, data, path)
     c = dict(case)
     c["args"] = [a for a in case["args"]]
     check_json(c, env, data, path, [], "json-multiline", multiline=True)
